@@ -16,6 +16,18 @@ CHECKS = {
          "unchanged, neighbour property, mode table on the whole tail, with_scale = Down, round(n) = default mode, all 4200 round_pair arguments. Tied to the code by exact "
          "(int, scale) comparison on the quantifier's small scope and structured random long inputs.",
          NOTE_COMMON, "Lean 4 proof (digit-level refinement to declarative rounding) + translated round_pair table + differential correspondence", "DESIGN.md §5 C06"),
+ "C07": ("Kernel-checked Lean theorems: with_precision_round (and every Context / reference entry point, which call it) equals the declarative rounding at the p-th "
+         "significant digit for every decimal, p and mode (C07_withPrecisionRound, built on C06's refinement); padding to p digits when fewer exist (C07_pads); "
+         "with_prec(p) = the same rounding with ties away from zero for both signs and commutes with negation (C07_withPrec, C07_withPrec_neg, under the scalar estimate condition EstOK); "
+         "context sums round the exact sum once. Correspondence: exact (int, scale) comparison over all entry points.",
+         NOTE_COMMON + " f64 digit estimate: EstOK proved for the real formula, exercised exhaustively on the real code (C18).",
+         "Lean 4 proof + differential correspondence check", "DESIGN.md §5 C07"),
+ "C18": ("Kernel-checked Lean theorems: digits() = exact decimal digit count for every integer under the scalar condition EstOK on the bit-length estimate (proved for the real-valued "
+         "formula; the f64 formula is exercised on the real code for every bit length up to 4*10^4/4*10^5 and sampled to 2*10^7); ten_to_the_uint = 10^n for every n (all three algorithms); "
+         "normalized() keeps the value, strips all trailing zeros, maps zero to 0e0, and is canonical (equal values have identical normalized parts); scale/precision extension multiplies by "
+         "the exact power of ten. Correspondence: accessor round trips through every constructor and view, exact comparison.",
+         NOTE_COMMON + " Accessor/constructor agreement is definitional in the model; its tie to the code is the correspondence run.",
+         "Lean 4 proof + differential correspondence check (hooks for internal routines)", "DESIGN.md §5 C18"),
 }
 
 NOT_YET = "check under construction in this round (not yet claimed); see DESIGN.md §11 order of work"
